@@ -429,6 +429,15 @@ struct hawk_rtx_t
 
 	struct
 	{
+		hawk_val_t** ptr;
+		hawk_oow_t size;
+		hawk_oow_t capa;
+		hawk_oow_t depth; /* number of maps/arrays being destroyed by hawk_rtx_freeval() */
+		int draining;
+	} vdefer; /* maps/arrays found dead while another map/array is being destroyed */
+
+	struct
+	{
 #if defined(HAWK_OOCH_IS_UCH)
 		hawk_ctos_b_t b[512];
 #else
